@@ -81,6 +81,7 @@ func (g *gen) genC05() {
 		c.Tasks[t] = append(c.Tasks[t], op)
 	}
 	c.Profile += fmt.Sprintf("C05 tasks=%d", ntasks)
+	g.holdHandles()
 	if g.chance(0.4) {
 		g.execFaults(g.opPtrs(), 0.35)
 		c.Profile += " faults"
@@ -111,6 +112,7 @@ func (g *gen) genC06() {
 		ops = append(ops, g.execOp(0, names))
 	}
 	c.Tasks = [][]Op{ops}
+	g.holdHandles()
 	c.Profile += "C06"
 	if g.chance(0.4) {
 		var ptrs []*Op
@@ -208,12 +210,52 @@ func (g *gen) genC08() {
 		c.Profile += "delims "
 	}
 	c.Profile += fmt.Sprintf("C08 tasks=%d", ntasks)
+	g.holdHandles()
 	if g.chance(0.5) {
 		g.execFaults(g.opPtrs(), 0.3)
 		g.fsFaults(g.opPtrs(), 0.4)
 		c.Profile += " faults"
 	}
 	g.schedule(ntasks)
+}
+
+// holdHandles: in single-task histories, now and then a handle obtained by an
+// early Lookup is kept and used for later calls instead of looking the
+// template up again (callers do keep handles).
+func (g *gen) holdHandles() {
+	c := g.c
+	if len(c.Tasks) != 1 || !g.chance(0.3) {
+		return
+	}
+	ops := c.Tasks[0]
+	var out []Op
+	slot := 0
+	held := map[string]int{} // "set/name" -> slot
+	for i := range ops {
+		op := ops[i]
+		name := ""
+		switch op.Kind {
+		case opExec, opExecHTML:
+			name = op.Recv
+		case opExecTmpl, opExecTmplHTML, opParse, opClone:
+			name = op.Recv
+		}
+		if name != "" {
+			key := fmt.Sprintf("%d/%s", op.Set, name)
+			if k, ok := held[key]; ok {
+				if g.chance(0.6) {
+					op.Held = k
+				}
+			} else if slot < 6 && g.chance(0.4) {
+				slot++
+				held[key] = slot
+				out = append(out, Op{ID: g.id(), Kind: opLookup, Set: op.Set, Name: name, Hold: slot})
+			}
+		}
+		out = append(out, op)
+	}
+	c.Tasks[0] = out
+	c.Profile += " handles"
 }
 
 // setOptions: now and then the set has non-default settings (they are part of
